@@ -1583,6 +1583,7 @@ func checkC05(c *Ctx, r *Report) {
 	r.Undecidedcl = []string{"termination in bounded time", "Stop racing with concurrent log calls", "data readable from the file after Close (OS contract)"}
 	r.Assumptions = []string{"channel FIFO: a marker sent after item x is received after x", "(*os.File).Close releases the descriptor"}
 	ro := c.roles(r)
+	fileAppenderDecisions(r, c.checkFileAppenderSemantics(r, ro, "C05.file-values"))
 	if c.checkLifecycleSemantics(r, ro, "C05.lifecycle-values", r.Tier == "thorough") {
 		r.Decide([]string{"C05.registered:", "C05.destroy-order:"}, nil, "Refresh/Destroy evaluated: everything started is stopped once, loggers first")
 	}
